@@ -345,7 +345,9 @@ fn cli_update_all(o: &Opts, out: &mut Out, rng: &mut Rng) {
     for (name, before, want) in wants {
       let got = std::fs::read_to_string(p.join(&name)).unwrap_or_default();
       out.nontrivial(&before);
-      if r.timed_out || got != want {
+      // how a deleted comment leaves the line (trailing blank, empty line) is not the property's business
+      let norm = |t: &str| -> Vec<String> { t.lines().map(|l| l.trim_end().to_string()).filter(|l| !l.is_empty()).collect() };
+      if r.timed_out || norm(&got) != norm(&want) {
         out.oracle_fail("", &format!("sg scan -U with one fixing rule: {name} was {before:?}, is now {got:?}; rewriting the unsilenced findings and removing the suppressions that silenced nothing gives {want:?}"),
           json!({"stream": "c14-cli-update", "dir": p.to_string_lossy(), "file": name, "before": before, "stdout": r.stdout.chars().take(400).collect::<String>()}));
         break;
